@@ -24,6 +24,7 @@ type Case struct {
 	Ops      []string `json:"ops"`
 	Twin     string   `json:"twin,omitempty"` // reads-removed | discarded-sessions-removed | reread-after-every-op | same-sequence | store-variant
 	TwinOps  []string `json:"twin_ops,omitempty"`
+	TwinSig  string   `json:"twin_signature,omitempty"` // the violation class if the two hash lists differ
 	Step     int      `json:"step"`
 	Note     string   `json:"note,omitempty"`
 }
@@ -246,8 +247,7 @@ func (e *Enumerator) round(l int, final bool) bool {
 						return
 					}
 					seq[0], seq[1] = shards[s][0], shards[s][1]
-					e.dfs(seq, 2, a.Ops[seq[0]].K == Begin && a.Ops[seq[1]].K != CommitTx && a.Ops[seq[1]].K != DiscardTx && a.Ops[seq[1]].K != CommitBlock && a.Ops[seq[1]].K != Reopen || a.Ops[seq[1]].K == Begin,
-						r, tw, memo, acc, final, ci == 0)
+					e.dfs(seq, 2, a.sessionOpenAfter(seq[:2]), r, tw, memo, acc, final, ci == 0)
 				}
 			}()
 		}
@@ -423,22 +423,7 @@ func (e *Enumerator) memoTwins(l int, cfg Config, memo []uint64) (distinct int64
 						panic(fmt.Sprintf("internal: twin %v of %v was not executed", a.Strings(t), a.Strings(seq)))
 					}
 					if td != d {
-						kinds := map[Kind]bool{}
-						for _, x := range seq {
-							if a.Ops[x].IsRead() {
-								kinds[a.Ops[x].K] = true
-							}
-						}
-						ks := ""
-						for _, k := range []Kind{Get, Exists, GetVersioned} {
-							if kinds[k] {
-								if ks != "" {
-									ks += "+"
-								}
-								ks += k.String()
-							}
-						}
-						f.add(foundEntry{sig: fmt.Sprintf("C09|hash-depends-on-reads|reads=%s|layer=%s", ks, cfg.Layer()),
+						f.add(foundEntry{sig: fmt.Sprintf("C09|hash-depends-on-reads|reads=%s|layer=%s", a.readKinds(seq), cfg.Layer()),
 							what: "a commit hash differs between a sequence and the same sequence with its reads removed",
 							cfg:  cfg, seq: seq, twin: "reads-removed", twinSeq: t, step: len(seq) - 1}, 1)
 					}
@@ -494,6 +479,7 @@ func caseOf(a *Alphabet, fe *foundEntry) *Case {
 	c := &Case{Alphabet: a.Name, Config: fe.cfg, ConfigB: fe.cfgB, Ops: a.Strings(fe.seq), Twin: fe.twin, Step: fe.step}
 	if fe.twin != "" {
 		c.TwinOps = a.Strings(fe.twinSeq)
+		c.TwinSig = fe.sig
 	}
 	return c
 }
@@ -566,34 +552,8 @@ func ReplayCase(a *Alphabet, c *Case, seq, twinSeq []uint8) (sigs []string, tran
 		sigs = append(sigs, m.Sig)
 	}
 	if r.Digest != t.Digest {
-		var sig string
-		switch c.Twin {
-		case "reads-removed":
-			kinds := map[Kind]bool{}
-			for _, x := range seq {
-				if a.Ops[x].IsRead() {
-					kinds[a.Ops[x].K] = true
-				}
-			}
-			ks := ""
-			for _, k := range []Kind{Get, Exists, GetVersioned} {
-				if kinds[k] {
-					if ks != "" {
-						ks += "+"
-					}
-					ks += k.String()
-				}
-			}
-			sig = fmt.Sprintf("C09|hash-depends-on-reads|reads=%s|layer=%s", ks, c.Config.Layer())
-		case "discarded-sessions-removed":
-			sig = fmt.Sprintf("C09|hash-depends-on-discarded-session|layer=%s", c.Config.Layer())
-		case "reread-after-every-op":
-			sig = fmt.Sprintf("C09|hash-depends-on-reads|twin=reread-after-every-op|layer=%s", c.Config.Layer())
-		case "same-sequence":
-			sig = fmt.Sprintf("C09|hash-not-a-function-of-writes|twin=same-sequence|layer=%s", c.Config.Layer())
-		case "store-variant":
-			sig = fmt.Sprintf("C09|hash-depends-on-store-variant|a=%s|b=%s", c.Config, cfgB)
-		default:
+		sig := c.TwinSig
+		if sig == "" {
 			sig = "C09|hash-differs|twin=" + c.Twin
 		}
 		sigs = append(sigs, sig)
